@@ -369,3 +369,42 @@ func safely(f func() string) (res string) {
 	}()
 	return f()
 }
+
+// buildShared builds the type like build, but a *T node that occurs several times in the tree
+// is built ONCE and its *types.Type pointer reused (a DAG, as hand-written environments do).
+func (t *T) buildShared(memo map[*T]*types.Type) *types.Type {
+	if x, ok := memo[t]; ok {
+		return x
+	}
+	var res *types.Type
+	switch t.K {
+	case "tuple":
+		xs := make([]*types.Type, len(t.Kids))
+		for i, k := range t.Kids {
+			xs[i] = k.buildShared(memo)
+		}
+		res = types.Tuple(xs)
+	case "list":
+		res = types.List(t.Kids[0].buildShared(memo))
+	case "maybe":
+		res = types.Maybe(t.Kids[0].buildShared(memo))
+	case "map":
+		res = types.Map(t.Kids[0].buildShared(memo), t.Kids[1].buildShared(memo))
+	case "obj":
+		fs := make([]types.Field, len(t.Fields))
+		for i, f := range t.Fields {
+			fs[i] = types.Field{Name: f.Name, Val: f.T.buildShared(memo)}
+		}
+		res = types.Obj(fs)
+	case "fun":
+		xs := make([]*types.Type, len(t.Kids))
+		for i, k := range t.Kids {
+			xs[i] = k.buildShared(memo)
+		}
+		res = types.Fun(t.Name, xs, t.Ret.buildShared(memo))
+	default:
+		res = t.build()
+	}
+	memo[t] = res
+	return res
+}
